@@ -637,7 +637,8 @@ fn parse_number(text: &str) -> IResult<&str, f32> {
     let (rest, _) = skip_optional_whitespace(text)?;
     let (rest, (sign, val)) = tuple((
         opt(alt((tag("-"), tag("+")))),
-        alt((parse_integer, parse_decimal)),
+        // decimal first: the integer parser would stop at the '.' of "0.5"
+        alt((parse_decimal, parse_integer)),
     ))(rest)?;
     Ok((
         rest,
